@@ -66,9 +66,8 @@ def run(ctx):
         elif rel == par.FH:
             it, _ = par.run_fmm_function(ctx, name)
         else:
-            r_cov.fail(name, rel, name, fn.lineno, "unanalysed parallel function " + name,
-                       "parallel=True function with a prange that is neither a registered assembler nor a known helper: its stores are not classified")
-            continue
+            # a parallel function the analysis has no model for: neither "holds" nor "violated" can be claimed
+            raise AnalysisError("%s::%s is a parallel=True function with a prange that is neither a registered assembler nor a known helper: its stores cannot be classified" % (rel, name))
         r_cov.ok("%s::%s" % (rel.split("/")[-1], name))
         stores = par.classify_writes(rel, name, it)
         if not stores:
